@@ -112,9 +112,10 @@ def sym_case(rng, n, sign):
     return F, l1, delta, style
 
 
-# Finding F13e: members of the accuracy class on which the exit test is met by coincidence at the
-# first loop iteration (first Rayleigh quotient ~ first scaling component) long before convergence.
-# (u of the Householder matrix, D, tolerance); found by search, see known_findings.d/C13.json
+# Regression inputs of the repaired finding F13e (commit 734f679): members of the accuracy class on which the
+# first Rayleigh quotient agrees with the first scaling component of A*1 to within the tolerance.  Before the
+# repair the exit test compared these two and the call returned after one iteration with an eigenvalue off by
+# 1-17 %.  (u of the Householder matrix, D, tolerance).  They must pass the ordinary oracle.
 COINCIDENCES = [
     ([-1.0, 0.9375], [1.0, 0.4881], 1e-4),
     ([-1.0, 0.9375], [1.0, 0.488075], 1e-6),
@@ -348,52 +349,6 @@ def judge(case, impl):
     delta = Fraction(hex2f(case.meta['delta']))       # |l1(fl A) - l1| <= delta (Weyl)
     if abs(L - l1) > C * tol * (abs(l1) + delta) + delta:
         return 'eigenvalue differs from the dominant eigenvalue by more than %d tol |l1|' % C
-    return None
-
-
-def scaling(y):
-    m = max(y)
-    return m if m > 0 else min(y)
-
-
-def known(case, impl, clause):
-    """F13e — input class, decided from the INPUT alone by the exact (rational) iteration: a member of the
-    accuracy class on which the exit test |l_k - l_{k-1}| < es |l_k| is met at a step k <= 8 whose exact
-    Rayleigh quotient is further than C tol |l1| from the dominant eigenvalue (premature exit)."""
-    if not (case.meta and case.meta.get('kind') == 'accuracy'):
-        return None
-    if not (clause.startswith('residual') or clause.startswith('eigenvalue')):
-        return None
-    cmd, es, rows = parse(case)
-    n = len(rows)
-    A = [[Fraction(x) for x in r] for r in rows]
-    tol = Fraction(es)
-    l1 = Fraction(hex2f(case.meta['l1']))
-    delta = Fraction(hex2f(case.meta['delta']))
-    mv = lambda x: [sum(A[i][j] * x[j] for j in range(n)) for i in range(n)]
-    y = mv([Fraction(1)] * n)
-    ev = scaling(y)
-    if ev == 0:
-        return None
-    x = [t / ev for t in y]
-    for k in range(1, 9):
-        y = mv(x)
-        s = scaling(y)
-        if s == 0:
-            return None
-        nx = [t / s for t in y]
-        den = sum(t * t for t in nx)
-        rho = sum(a * b for a, b in zip(nx, mv(nx))) / den
-        if rho == 0:
-            return None
-        if abs((rho - ev) / rho) < tol:
-            if abs(rho - l1) > C * tol * (abs(l1) + delta) + delta:
-                return ('F13e premature exit: the exit test is met at iteration %d, where the estimate %.6g is compared with '
-                        'the %s %.6g, while the dominant eigenvalue is %.6g'
-                        % (k, float(rho), 'first scaling component' if k == 1 else 'previous Rayleigh quotient',
-                           float(ev), float(l1)))
-            return None
-        ev, x = rho, nx
     return None
 
 
